@@ -28,6 +28,11 @@ MUTATIONS = [
      "                        _partial_len = b''\n", ''),
     ('c14-buffer-not-cleared', 'C14', 'abacusnbody/data/asdf.py',
      '                        _buffer = None\n                        _size = 0', '                        _size = 0'),
+    ('c14-reassembly-buffer-shared', 'C14', 'abacusnbody/data/asdf.py',
+     ['                        _buffer = np.empty(\n                            _size, dtype=np.byte\n                        )',
+      '        _partial_len = b\'\'\n\n        decompression_time = 0.0'],
+     ['                        _buffer = BloscCompressor._scratch[:_size]',
+      '        _partial_len = b\'\'\n        if not hasattr(BloscCompressor, \'_scratch\'):\n            BloscCompressor._scratch = np.empty(1 << 24, dtype=np.byte)\n\n        decompression_time = 0.0']),
     # ---- C07
     ('c07-allow-half-grid', 'C07', 'abacusnbody/analysis/tsc.py',
      'if npartition > 1 and 3 * npartition >= n1d and nthread > 1:',
@@ -79,6 +84,7 @@ MUTATIONS = [
     ('c08-shared-accumulator', 'C08', 'abacusnbody/analysis/power_spectrum.py',
      '        tid = numba.get_thread_id()\n        i2 = i**2 if i < (n1d + 1) // 2 else (i - n1d) ** 2\n        for j in range(n1d):\n            bk, bmu = 0, 0',
      '        tid = 0\n        i2 = i**2 if i < (n1d + 1) // 2 else (i - n1d) ** 2\n        for j in range(n1d):\n            bk, bmu = 0, 0'),
+    ('c08-float32-counters', 'C08', 'abacusnbody/analysis/power_spectrum.py', 'counts = np.zeros((nthread, Nk, Nmu), dtype=np.int64)', 'counts = np.zeros((nthread, Nk, Nmu), dtype=np.float32)'),
     ('c08-nyquist-doubled', 'C08', 'abacusnbody/analysis/power_spectrum.py',
      'single = k == 0 or 2 * k == n1d\n                counts[tid, bk, bmu]', 'single = k == 0\n                counts[tid, bk, bmu]'),
     ('c08-first-edge-open', 'C08', 'abacusnbody/analysis/power_spectrum.py',
@@ -149,6 +155,8 @@ MUTATIONS = [
     ('c01-slab-index-parse', 'C01', 'abacusnbody/data/compaso_halo_catalog.py', "[int(hfn.stem.split('_')[-1]) for hfn in halo_fns]", "[int(hfn.stem.split('_')[-1]) % 10 for hfn in halo_fns]"),
     ('c01-npout-diff-dtype', 'C01', 'abacusnbody/data/compaso_halo_catalog.py', 'npstartAB_new[AB][:-1], name=f', 'npstartAB_new[AB][1:], name=f'),
     # ---- C16
+    ('c16-rvint-large-even-count', 'C16', 'abacusnbody/data/bitpacked.py', '    for i in range(N):\n        if posout is not None:', '    for i in range(N if N < 8192 else N - N % 2):\n        if posout is not None:'),
+    ('c16-pid-block-tail', 'C16', 'abacusnbody/data/bitpacked.py', '    for i in range(N):\n        if lagr_idx is not None:', '    for i in range(N if N % 4096 != 1 else N - 1):\n        if lagr_idx is not None:'),
     ('c16-no-truncation', 'C16', 'abacusnbody/data/read_abacus.py', '    table = table[:nread]  # truncate to amount actually read\n', ''),
     ('c16-default-pid-adds-pos', 'C16', 'abacusnbody/data/read_abacus.py', "        if 'pid' in colname:\n            load += ['pid']", "        if 'pid' in colname:\n            load += ['pid', 'tagged']"),
     ('c16-nread-min', 'C16', 'abacusnbody/data/read_abacus.py', "                velout=_velout,\n            )\n            nread = max(npos, nvel)\n        elif 'pid' in colname:", "                velout=_velout,\n            )\n            nread = min(npos, nvel)\n        elif 'pid' in colname:"),
@@ -158,6 +166,7 @@ MUTATIONS = [
     ('c16-meta-dropped', 'C16', 'abacusnbody/data/read_abacus.py', "        table = Table(meta=header)", "        table = Table(meta={k: v for k, v in header.items() if k != 'ppd'})"),
     ('c16-pid-kwargs', 'C16', 'abacusnbody/data/read_abacus.py', "for k in ('pid', 'lagr_pos', 'tagged', 'density', 'lagr_idx')\n            }", "for k in ('pid', 'lagr_pos', 'tagged', 'density')\n            }"),
     # ---- C20
+    ('c20-repeated-field-once', 'C20', 'abacusnbody/data/pipe_asdf.py', '    for field in fields:\n        N = np.int64(0)', '    for field in dict.fromkeys(fields):\n        N = np.int64(0)'),
     ('c20-late-field-validation', 'C20', 'abacusnbody/data/pipe_asdf.py', "    for af in afs:\n        for field in fields:\n            if field not in af.tree[data_key]:\n                raise ValueError(f'Field \"{field}\" not found in \"{af.uri}\"')\n", ''),
     ('c20-late-file-validation', 'C20', 'abacusnbody/data/pipe_asdf.py', "    for fn in asdf_fns:\n        if not isfile(fn):\n            raise FileNotFoundError(fn)\n    afs = []\n    for fn in asdf_fns:\n        afs += [asdf.open(fn, mode='r', memmap=False, lazy_load=True)]\n", "    afs = []\n    for fn in asdf_fns:\n        if isfile(fn):\n            afs += [asdf.open(fn, mode='r', memmap=False, lazy_load=True)]\n"),
     ('c20-header-order', 'C20', 'abacusnbody/data/pipe_asdf.py', '        pipe.write(N)\n        pipe.write(field_width)', '        pipe.write(field_width)\n        pipe.write(N)'),
@@ -189,7 +198,9 @@ MUTATIONS = [
     ('c11-pack9-short-buffer', 'C11', 'abacusnbody/data/pack9.py', 'sh = np.empty(6, dtype=np.int16)', 'sh = np.empty(5, dtype=np.int16)'),
     ('c11-rvint-loop-bound', 'C11', 'abacusnbody/data/bitpacked.py', '    vmask = np.uint32(0xFFF)\n\n    for i in range(N):', '    vmask = np.uint32(0xFFF)\n\n    for i in range(N + 1):'),
     ('c11-zipper-merge-offset', 'C11', 'abacusnbody/data/compaso_halo_catalog.py', '                # fast-forward the write index\n                woff = slab_read_lens[i]\n\n                if pos is not None:', '                # fast-forward the write index\n                woff = slab_read_lens[i] + 1\n\n                if pos is not None:'),
-    ('c11-interp-closed-end', 'C11', 'abacusnbody/analysis/power_spectrum.py', '    elif xd >= x[-1]:\n        return y[-1]', '    elif xd > x[-1]:\n        return y[-1]'),
+    # (the older "xd > x[-1]" change is harmless since the last cell index is clamped)
+    ('c11-interp-last-cell-unclamped', 'C11', 'abacusnbody/analysis/power_spectrum.py', '    fl = min(np.int64(f), len(x) - 2)', '    fl = np.int64(f)'),
+    ('c11-interp-clamp-one-too-far', 'C11', 'abacusnbody/analysis/power_spectrum.py', '    fl = min(np.int64(f), len(x) - 2)', '    fl = min(np.int64(f), len(x) - 1)'),
     ('c11-concat-shift', 'C11', 'abacusnbody/hod/GRAND_HOD.py', '                final_array[i] = array2[i - N1]', '                final_array[i + 1] = array2[i - N1]'),
     ('c11-cic-rightwrap', 'C11', 'abacusnbody/analysis/cic.py', '        ixp1 = rightwrap(ix + 1, gx)', '        ixp1 = ix + 1'),
     ('c11-pids-extra-row', 'C11', 'abacusnbody/data/bitpacked.py', '    half = float_dtype(box / 2)\n\n    for i in range(N):', '    half = float_dtype(box / 2)\n\n    for i in range(N + (N > 0)):'),
